@@ -117,7 +117,7 @@ TSide == /\ l <= Len(Trace) /\ Ev.ev = "xremove" /\ ~dead
 (* Notify(b) only for a blob the call just completed had accepted. *)
 THub == /\ l <= Len(Trace) /\ Ev.ev = "hub" /\ ~dead
         /\ l' = l + 1
-        /\ ((Ev.b \in lastUp /\ Ev.b \in present) \/ PrintT(<<"VIOL", l, "hub", {"accepted-upload"}, {}>>))
+        /\ (IF Ev.b \in lastUp /\ Ev.b \in present THEN TRUE ELSE PrintT(<<"VIOL", l, "hub", {"accepted-upload"}, {}>>))
         /\ UNCHANGED <<hvars, dead, lastUp>>
 
 TSkip == /\ l <= Len(Trace) /\ Ev.ev \in {"op", "xremove", "hub"} /\ dead
